@@ -17,14 +17,18 @@ def sq(b):
     return "<<%s>>" % ", ".join(str(x) for x in b)
 
 
-def write_mc(workdir, name, N, mb, cb, lazy, sdiag, family, steps):
+def cfg_record(c):
+    return "[n |-> %d, mb |-> %s, cb |-> %s, lazy |-> %s, sdiag |-> %s, fam |-> \"%s\", steps |-> %d]" % (
+        c["n"], sq(c["mb"]), sq(c["cb"]), "TRUE" if c["lazy"] else "FALSE", "TRUE" if c.get("sdiag") else "FALSE", c["family"], c["steps"])
+
+
+def write_mc(workdir, name, configs, variant="pinned"):
     os.makedirs(workdir, exist_ok=True)
     mod = "MC_MVN_" + name
     with open(os.path.join(workdir, mod + ".tla"), "w") as f:
-        f.write("---- MODULE %s ----\nEXTENDS MVN\nMBDef == %s\nCBDef == %s\n====\n" % (mod, sq(mb), sq(cb)))
+        f.write("---- MODULE %s ----\nEXTENDS MVN\nConfigsDef == {\n  %s}\n====\n" % (mod, ",\n  ".join(cfg_record(c) for c in configs)))
     cfg = os.path.join(workdir, mod + ".cfg")
-    tlc.write_cfg(cfg, spec="Spec", constants={"N": N, "MeanBatch": "<- MBDef", "CovBatch": "<- CBDef", "Lazy": bool(lazy), "StartDiag": bool(sdiag),
-                                               "IdxFamily": family, "MaxSteps": steps},
+    tlc.write_cfg(cfg, spec="Spec", constants={"Configs": "<- ConfigsDef", "Variant": variant},
                   invariants=["RaisesIff", "Consistent", "DiagJustified"], properties=["MeanIsIndexedMean"])
     return os.path.join(workdir, mod + ".tla"), cfg
 
@@ -139,6 +143,15 @@ def expected_cov(torch, C, n, shape, clabels, ids, N0):
 
 
 def chains_of(states):
+    """{config key: [chain]} from the states of a dump; a chain that is a proper prefix of another is replayed as part of it"""
+    by = {}
+    for st in states:
+        c = st["cfg"]
+        by.setdefault((c["n"], tuple(c["mb"]), tuple(c["cb"]), bool(c["lazy"]), str(c["fam"]), c["steps"]), []).append(st)
+    return {k: _chains_of(v) for k, v in by.items()}
+
+
+def _chains_of(states):
     chains = []
     for st in states:
         h = st["hist"]
@@ -186,6 +199,11 @@ def replay_chain(torch, n, mb, cb, lazy, rep, chain):
             oerr = True
         if oerr != bool(step["err"]) or (not oerr and (list(oid.shape) != step["shape"] or oid.reshape(-1).tolist() != step["ids"]
                                                        or oml.reshape(-1).tolist() != step["labels"] or ocl.reshape(-1).tolist() != step["clabels"])):
+            if step["err"] and not oerr and oid.numel() == 0 and any(it["k"] == "list" for it in step["idx"]):
+                # an out-of-range entry of an index tensor next to an empty selection: numpy raises, torch gathers nothing and
+                # does not look at the entry - not a form whose meaning the two share
+                res.update(nontrivial=False, skipped=True, n=0)
+                break
             raise core.Machinery("PyIndex.tla / MVN.tla disagree with torch indexing on %s step %d: spec err=%s shape=%s, torch err=%s shape=%s" % (
                 desc, k, step["err"], step["shape"], oerr, None if oerr else list(oid.shape)))
         ok, r = core.guarded(lambda: cur[idx])
@@ -237,16 +255,18 @@ def replay_chain(torch, n, mb, cb, lazy, rep, chain):
     return res
 
 
+def _parse_worker(path):
+    from harness import tlaval
+    with open(path) as f:
+        states = [st for _, st in tlaval.parse_dump(f.read())]
+    return [dict(path=path, chains=[(list(k[:1]) + [list(k[1]), list(k[2])] + list(k[3:]), v) for k, v in chains_of(states).items()])]
+
+
 def _index_worker(item):
     torch = core.setup_torch()
-    with open(item["dump"]) as f:
-        from harness import tlaval
-        states = [s for _, s in tlaval.parse_dump(f.read())]
-    chains = chains_of(states)
-    chains = chains[item["part"]::item["parts"]]
     out = []
-    for ch in chains:
-        for rep in item["reps"]:
+    for ch in item["chains"]:
+        for rep in REPS:
             if rep == "dense" and item["lazy"]:
                 continue
             if rep != "dense" and not item["lazy"] and list(item["mb"]) != list(item["cb"]):
@@ -271,9 +291,8 @@ def index_configs(thorough):
     else:
         add(3, (), ("event", "ell", "chain"))
         add(3, (2,), ("event", "mixed", "ell", "ziplast", "chain"))
-        add(2, (2, 2), ("event", "mixed", "ell", "ziplast"))
+        add(2, (2, 2), ("mixed", "ell", "ziplast"))
         add(1, (2,), ("event", "mixed", "ell"))
-        add(2, (), ("event",))
         add(1, (), ("event", "chain"))
     # broadcast representations: mean and covariance with different batch shapes
     pairs = [((), (2,)), ((2,), ())] + ([((2,), (2, 2)), ((2, 2), (2,)), ((1,), (2,)), ((2, 1), (1, 2))] if thorough else [])
@@ -305,42 +324,83 @@ def run(ck):
     ck.exhaustive = True
     wd = os.path.join(tlc.BUILD, PID)
     jobs, meta = [], []
-    for c in index_configs(thorough):
-        name = "n%d_m%s_c%s_%s_%s%d" % (c["n"], "".join(map(str, c["mb"])) or "0", "".join(map(str, c["cb"])) or "0", "lazy" if c["lazy"] else "dense", c["family"], c["steps"])
-        mod, cfg = write_mc(os.path.join(wd, "mc"), name, c["n"], c["mb"], c["cb"], c["lazy"], False, c["family"], c["steps"])
-        jobs.append(((mod, cfg), dict(name=PID + "/run_" + name, timeout=1800, dump=True, check=False, workers=2, heap="3g", extra=["-continue"])))
-        meta.append((c, name))
-    if thorough:   # the DiagJustified invariant for a distribution that is diagonal to begin with
-        mod, cfg = write_mc(os.path.join(wd, "mc"), "startdiag", 2, (2,), (2,), False, True, "mixed", 1)
-        jobs.append(((mod, cfg), dict(name=PID + "/run_startdiag", timeout=600, check=False, workers=2, extra=["-continue"])))
-        meta.append((None, "startdiag"))
+    cfgs = index_configs(thorough)
+    if thorough:   # the DiagJustified invariant for a distribution that is diagonal to begin with (same cases, no extra replay)
+        cfgs.append(dict(n=2, mb=(2,), cb=(2,), lazy=False, sdiag=True, family="mixed", steps=1, predicted=False, noreplay=True))
+    groups = {}
+    def weight(c):      # rough number of states, to balance the TLC runs
+        b, n = len(c["mb"]), c["n"]
+        per = dict(event=(560, 880, 1300)[n - 1], mixed=(0, 370, 4000)[b], ell=(120, 600, 2700)[b], ziplast=100, small=(30, 50, 120)[b])[c["family"]]
+        return per ** c["steps"] if c["family"] == "small" else per
+    ngroups = 6 if thorough else 4
+    loads = [0] * ngroups
+    for c in sorted([c for c in cfgs if not c["predicted"]], key=weight, reverse=True):
+        g = loads.index(min(loads))
+        loads[g] += weight(c)
+        groups.setdefault("plain%d" % g, []).append(c)
+    groups["predicted"] = [c for c in cfgs if c["predicted"]]
+    for name, cs in groups.items():
+        mod, cfg = write_mc(os.path.join(wd, "mc"), name, cs)
+        jobs.append(((mod, cfg), dict(name=PID + "/run_" + name, timeout=3000, dump=True, check=False, workers=3, heap="4g", extra=["-continue"])))
+        meta.append((name, cs))
+    # the same cells under the repaired model (documents what a repair has to change; decides which variant the tree matches)
+    mod, cfg = write_mc(os.path.join(wd, "mc"), "predicted_fixed", groups["predicted"], variant="fixed")
+    jobs.append(((mod, cfg), dict(name=PID + "/run_predicted_fixed", timeout=3000, check=False, workers=2, heap="3g", extra=["-continue"])))
+    meta.append(("predicted_fixed", None))
     from checks import c10_numeric
     njobs, nmeta = c10_numeric.tlc_jobs(wd, thorough)
     results = tlc.run_many(jobs + njobs, parallel=8)
-    items = []
-    for (c, name), res in zip(meta, results[:len(jobs)]):
+    dumps, tlc_pred = [], {}
+    for (name, cs), res in zip(meta, results[:len(jobs)]):
         ck.add_tlc(res, name)
         if res.rc != 0 and res.violation is None:
             raise tlc.TLCError("TLC failed on %s:\n%s" % (name, res.stdout[-1500:]))
-        if res.violation is not None:
-            nv = res.stdout.count("is violated")
-            ck.model_drift("MVN.tla (model of the current code) violates %s on %s (%d violation reports%s): a prediction, decided by the replay" % (
-                res.violation["name"], name, nv, "; expected for this family" if c and c["predicted"] else ""))
-        elif c and c["predicted"]:
-            ck.model_drift("MVN.tla predicted failures on %s but TLC found none" % name)
         ck.require_coverage(res, ["Next"])
-        if c is None:
+        if name.startswith("predicted"):
+            tlc_pred[name] = (res.violation or {}).get("name"), res.stdout.count("is violated")
+        elif res.violation is not None:
+            ck.model_drift("MVN.tla (model of the current code) violates %s in run %s (%d violation reports): a prediction, decided by the replay" % (
+                res.violation["name"], name, res.stdout.count("is violated")))
+        if cs is None:
             continue
-        if res.distinct <= 1:
-            ck.vacuous("TLC run %s generated no index case" % name)
-        ck.section("index-gen", configs=1, states=res.distinct)
-        parts = max(1, min(16, res.distinct // 250))
-        for p in range(parts):
-            items.append(dict(dump=res.dump_path, n=c["n"], mb=list(c["mb"]), cb=list(c["cb"]), lazy=c["lazy"], reps=list(REPS), part=p, parts=parts))
+        ck.section("index-gen", runs=1, configs=len(cs), states=res.distinct)
+        dumps.append((name, cs, res.dump_path))
+    parsed = {r["path"]: r["chains"] for r in core.pmap(_parse_worker, [d[2] for d in dumps], chunksize=1)}
+    items = []
+    for name, cs, path in dumps:
+        got = {core.digest(k): v for k, v in parsed[path]}
+        for c in cs:
+            chains = got.get(core.digest([c["n"], list(c["mb"]), list(c["cb"]), bool(c["lazy"]), c["family"], c["steps"]]), [])
+            if not chains:
+                ck.vacuous("TLC run %s generated no index case for configuration %s" % (name, cfg_record(c)))
+            if c.get("noreplay"):
+                continue
+            for i in range(0, len(chains), 60):
+                items.append(dict(n=c["n"], mb=list(c["mb"]), cb=list(c["cb"]), lazy=c["lazy"], chains=chains[i:i + 60]))
     results_i = core.pmap(_index_worker, items, chunksize=1)
     ck.absorb(results_i)
-    ck.section("index-replay", cases=len(results_i), failed=sum(1 for r in results_i if not r.get("ok", True)))
+    failed = [r for r in results_i if not r.get("ok", True)]
+    ck.section("index-replay", cases=len(results_i), failed=len(failed), skipped_numpy_torch_differ=sum(1 for r in results_i if r.get("skipped")))
+    pred_cells = [r for r in failed if "tensor-last-zipped" in r["sig"] or "-bcast-" in r["sig"]]
+    report_variant(ck, "MVN.tla", tlc_pred.get("predicted"), tlc_pred.get("predicted_fixed"), len(pred_cells),
+                   "index tensors in batch positions zipped with an index tensor in the last position; LinearOperator-constructed distributions whose mean and "
+                   "covariance batch shapes differ")
     c10_numeric.run(ck, nmeta, results[len(jobs):])
+
+
+def report_variant(ck, spec, pinned, fixed, nfail, what):
+    """pinned / fixed = (first violated invariant or None, number of violation reports) of the two model variants on the cells
+    `what`; nfail = failing replay cells there.  The variant that agrees with the replay is the model of the current code."""
+    ck.extra.setdefault("model_variants", {})[spec] = dict(cells=what, pinned_model_violations=pinned[1], fixed_model_violations=fixed[1], failing_replay_cells=nfail,
+                                                           code_matches="pinned" if nfail else "fixed")
+    if nfail:
+        if pinned[0] is None:
+            ck.model_drift("%s (variant pinned) holds on [%s] but %d replay cells fail there" % (spec, what, nfail))
+        else:
+            ck.model_drift("%s (model of the current code, variant pinned) violates %s on [%s] (%d violation reports): a prediction - confirmed by %d failing replay cells; "
+                           "variant fixed has %d" % (spec, pinned[0], what, pinned[1], nfail, fixed[1]))
+    elif fixed[0] is not None:
+        ck.model_drift("%s (variant fixed) violates %s on [%s] although no replay cell fails there" % (spec, fixed[0], what))
 
 
 def replay(rep):
